@@ -293,9 +293,9 @@ def r112(an: Analysis, rep, V):
         raise AnalysisError("no flag-name set derived from code.co_flags found in the decode closure")
     # the top function: the one that builds the CodeData result
     top = None
-    for (q, ctx), summ in it.summaries.items():
-        f = an.prog.find_function(q)
-        if f is not None and any(a in ret for a in summ["ret"]) and f.cls is None:
+    sites = {(a[1][0], a[1][1]) for a in ret if a[0] == "obj"}
+    for f in an.closure("from_code", V):
+        if f.cls is None and any(f.module.name == m and f.node.lineno <= ln <= f.node.end_lineno for m, ln in sites):
             top = f
     if top is None:
         raise AnalysisError("decoder top-level function not found")
